@@ -483,7 +483,7 @@ func CheckC17(c *Ctx) (*Outcome, error) {
 		rng := c.Rng("c17-world", i)
 		var spec *LSpec
 		for try := 0; ; try++ {
-			spec = DrawLayout(rng, 2+rng.IntN(3), LayoutOpts{UserPkgs: true, Guarded: rng.IntN(3) == 0})
+			spec = DrawLayout(rng, 2+rng.IntN(3), LayoutOpts{UserPkgs: true, Guarded: rng.IntN(3) == 0, UnsafeZero: true})
 			if !hasPathConflict(spec) {
 				break
 			}
